@@ -20,3 +20,48 @@ def install(w):
                # which is what allowed_variable_usage tests
                ensures=STACKS + ["is_undefined(self._default_value_stack[len(self._default_value_stack) - 1])"],
                raises=[], modifies=[], props={"C13"})
+
+
+def install_visitor(w):
+    """TypeInfoVisitor keeps the TypeInfo in step with the traversal (C12: every rule sees the type
+    information of the node it is called for; C11: whatever a visitor decides).  Counted with two
+    ghost counters of TypeInfo.enter / TypeInfo.leave calls: after enter() the TypeInfo is one level
+    deeper exactly when the traversal will descend (no result, or a replacement node), and back at
+    the same level for every other decision (skip, break, remove, any other value); leave() always
+    goes one level up."""
+    TI_FRAME = ["self._type_stack", "self._parent_type_stack", "self._input_type_stack",
+                "self._field_def_stack", "self._default_value_stack", "self._directive",
+                "self._argument", "self._enum_value", "self._fragment_signatures_by_name",
+                "self._fragment_signature", "self._fragment_argument"]
+    w.alias("TypeInfoVisitor", f"{TI}.TypeInfoVisitor")
+    w.shape("TypeInfoVisitor", type_info="obj:TypeInfo", visitor="dyn")
+    # the dispatchers themselves (getattr(self, 'enter_' + kind)) are assumed total here; the
+    # enter_* methods that matter for C13 are verified above
+    w.contract(f"{TI}.TypeInfo.enter", params={"node": "dyn"}, ghost_calls=["ti_enter"],
+               raises=[], modifies=TI_FRAME, assumed=True)
+    w.contract(f"{TI}.TypeInfo.leave", params={"node": "dyn"}, ghost_calls=["ti_leave"],
+               raises=[], modifies=TI_FRAME, assumed=True)
+    DEPTH = "ghost('ti_enter') - ghost('ti_leave')"
+    w.define("IsAstNode", "v", "instance_of(v, 'Node')")
+    w.contract(f"{TI}.TypeInfoVisitor.enter", params={"node": "dyn", "args": ("list", "dyn")},
+               returns="dyn",
+               ensures=[f"{DEPTH} == old({DEPTH}) + ite(is_none(result) or IsAstNode(result), 1, 0)"],
+               raises=["Exception"], modifies=TI_FRAME,
+               # self.visitor is a Visitor and the entries of its EnterLeaveVisitor are callables
+               # or None (the Visitor protocol): not re-proved here
+               waive=["call of a non-callable"], props={"C12", "C11"})
+    w.contract(f"{TI}.TypeInfoVisitor.leave", params={"node": "dyn", "args": ("list", "dyn")},
+               returns="dyn",
+               ensures=[f"{DEPTH} == old({DEPTH}) - 1"],
+               raises=["Exception"], modifies=TI_FRAME,
+               # self.visitor is a Visitor and the entries of its EnterLeaveVisitor are callables
+               # or None (the Visitor protocol): not re-proved here
+               waive=["call of a non-callable"], props={"C12", "C11"})
+
+
+_install0 = install
+
+
+def install(w):   # noqa: F811
+    _install0(w)
+    install_visitor(w)
